@@ -1,5 +1,8 @@
 (* C05 -- hand-written executable L1 model of momo's array element shifting
-   (include/momo/ArrayUtility.h, class ArrayShifter, as it is after fix commit 62f9657).
+   (include/momo/ArrayUtility.h, class ArrayShifter, as it is after the fix commits 62f9657, bcbf078, c5d1be1).
+   Indexes and counts are `nat`: size_t wrap-around is NOT modelled (the range checks of the real code are written so
+   that they cannot wrap since bcbf078 / c5d1be1; the `rej` oracle family of prop.py checks the real code with SIZE_MAX
+   boundary values).
 
    An element slot is a cell:  Live v (constructed, holds v) | Moved (constructed, moved-from: valid but
    unspecified) | Raw (unconstructed storage).  Two Section parameters describe the element type:
@@ -150,7 +153,7 @@ Definition insert_nogrow_gen (fixed : bool) (src : source) (s : arr) (index coun
   let initCount := cnt s in
   let fuel := S (cap s) in
   if negb (index <=? initCount) then Err EIndex else                 (* MOMO_CHECK(index <= initCount) *)
-  if negb (initCount + count <=? cap s) then Err ECap else           (* MOMO_ASSERT(capacity >= initCount + count) *)
+  if negb (initCount + count <=? cap s) then Err ECap else           (* MOMO_ASSERT(count <= capacity - initCount)  [c5d1be1; nat: no wrap-around] *)
   if fixed && (count =? 0) then Ok s else                            (* if (count == 0) return;  [62f9657] *)
   if index + count <? initCount then
     (* for (i = initCount - count; i < initCount; ++i) array.AddBackNogrow(std::move(array[i])); *)
@@ -174,7 +177,7 @@ Definition insert_nogrow_rvalue fixed s index (x : arg) := insert_nogrow_gen fix
 (* ---- ArrayShifter::Remove(array, index, count)  (ArrayUtility.h:277-287) ---- *)
 Definition remove_range (fixed : bool) (s : arr) (index count : nat) : res arr :=
   let initCount := cnt s in
-  if negb (index + count <=? initCount) then Err EIndex else         (* MOMO_CHECK(index + count <= initCount) *)
+  if negb (index + count <=? initCount) then Err EIndex else         (* MOMO_CHECK(index <= initCount && count <= initCount - index)  [bcbf078] *)
   if fixed && (count =? 0) then Ok s else                            (* if (count == 0) return;  [62f9657] *)
   (* for (i = index + count; i < initCount; ++i) Assign(std::move(array[i]), array[i - count]); *)
   s1 <- for_up (S (cap s)) (index + count) initCount (fun i s => move_assign_items s i (i - count)) s ;;
